@@ -141,6 +141,7 @@ def run_case(case: dict) -> dict:
         tap = lib.Tap(griffe)
         prev_core = None
         crashed = False
+        api = any(o["op"] == "settarget" for o in case["ops"])
         signal.setitimer(signal.ITIMER_VIRTUAL, 8.0, 8.0)
         try:
             for op in case["ops"]:
@@ -149,6 +150,15 @@ def run_case(case: dict) -> dict:
                     if op["op"] == "load":
                         loader.load(op["arg"])
                         prev_core = None
+                    elif op["op"] == "settarget":
+                        # public setter between two member aliases (objects fetched from the members dictionaries, nothing dereferenced)
+                        a = lib._navigate(coll, op["a"]["m"]).members[op["a"]["n"]]
+                        v = lib._navigate(coll, op["v"]["m"]).members[op["v"]["n"]]
+                        prev_core = None
+                        try:
+                            a.target = v
+                        except (griffe.CyclicAliasError, griffe.AliasResolutionError) as exc:      # documented outcomes of the setter
+                            rec["out"] = "CYC" if isinstance(exc, griffe.CyclicAliasError) else "ARE"
                     else:
                         unres, it = loader.resolve_aliases(implicit=True, external=(op["arg"] == "ext"))
                         rec["unres"] = sorted(unres)
@@ -163,6 +173,8 @@ def run_case(case: dict) -> dict:
                     crashed = True
                 out["ops"].append(rec)
                 for sig, what in check_state(griffe, coll, present, prog_by_mod, op["op"]):
+                    if api and sig["clause"] == "all-or-nothing":
+                        continue          # the setter binds onto whatever it is given: chains built through it are not claimed all-or-nothing
                     out["bad"].append((sig, what))
                 if crashed:
                     break
@@ -217,7 +229,7 @@ def run_chunk(cases: list) -> list:
 
 
 def sched_text(case: dict) -> str:
-    return ", ".join(("load(" + o["arg"] + ")") if o["op"] == "load" else ("resolve_aliases(external=True)" if o["arg"] == "ext" else "resolve_aliases()") for o in case["ops"])
+    return ", ".join(("load(" + o["arg"] + ")") if o["op"] == "load" else (f"{o['a']['m']}.{o['a']['n']}.target = {o['v']['m']}.{o['v']['n']}") if o["op"] == "settarget" else ("resolve_aliases(external=True)" if o["arg"] == "ext" else "resolve_aliases()") for o in case["ops"])
 
 
 def evaluate(run: Run, case: dict, res: dict, stats: dict):
@@ -242,9 +254,9 @@ def evaluate(run: Run, case: dict, res: dict, stats: dict):
     if len(run.samples) < 4 and (res["bad"] or len(run.samples) < 2):
         run.sample({"program": lib.prog_text(case["prog"]), "schedule": sched_text(case), "flags": case["flags"], "violations": [w for _, w in res["bad"]][:2]})
     # ---- conformance with the model ----
-    mops = [{"op": o["op"], "arg": o["arg"], "out": o["out"], "unres": sorted(".".join(p) for p in o["unres"]), "iter": o["iter"]} for o in case["ops"] if o["out"] != ""]
+    mops = [{"op": o["op"], "arg": o["arg"], "out": o["out"] if o["op"] != "settarget" or o["out"] in ("ARE", "CYC") else "ok", "unres": sorted(".".join(p) for p in o["unres"]), "iter": o["iter"]} for o in case["ops"] if o["out"] != ""]
     for o in mops:
-        if o["out"] != "ok":
+        if o["out"] != "ok" and o["op"] != "settarget":
             o["unres"], o["iter"] = [], 0
     rops = res["ops"]
     if case["unmod"]:
@@ -256,7 +268,7 @@ def evaluate(run: Run, case: dict, res: dict, stats: dict):
             k = next((i for i, (a, b) in enumerate(zip(mops, rops)) if a != b), min(len(mops), len(rops)))
             run.note(f"drift (public call {k}): {text}: spec {mops[k:k + 1]} real {rops[k:k + 1]}")
         return
-    if any(o["out"] not in ("ok", "") for o in case["ops"]):
+    if any(o["out"] not in ("ok", "") for o in case["ops"] if o["op"] != "settarget"):
         stats["model_crash_confirmed"] += 1
         return
     d = lib.first_diff(lib.norm_impl(case["impl"]), res["real"])
@@ -303,11 +315,15 @@ def replay_all(run: Run, cases: list, workers: int, stats: dict):
 
 # families of each tier; statement bounds, schedules and MaxOps of every family: Loader.tla (MaxTotal, Sched, MaxOps)
 TIERS = {
-    "quick": ["graph-q", "wild-q", "retarget-q", "fine", "side", "selfcyc"],
-    "thorough": ["graph-q", "wild", "retarget", "fine", "side", "selfcyc"],
+    "quick": ["graph-q", "wild-q", "retarget-q", "fine", "side", "selfcyc", "twostar", "apicyc"],
+    "thorough": ["graph-q", "wild", "retarget", "fine", "side", "selfcyc", "twostar", "apicyc"],
 }
 PRESENT = {"graph-q": ["p", "p.a", "p.b", "q"], "graph": ["p", "p.a", "p.b", "q"], "fine": ["p", "p.a", "p.b", "q"],
-           "wild": ["p", "p.a", "p.b"], "wild-q": ["p", "p.a", "p.b"], "retarget": ["p", "p.a", "p.b"], "retarget-q": ["p", "p.a", "p.b"], "selfcyc": ["p", "p.a", "p.b"], "side": ["p", "q", "r"]}
+           "wild": ["p", "p.a", "p.b"], "wild-q": ["p", "p.a", "p.b"], "retarget": ["p", "p.a", "p.b"], "retarget-q": ["p", "p.a", "p.b"], "selfcyc": ["p", "p.a", "p.b"], "twostar": ["p", "p.a", "p.b"], "apicyc": ["p", "p.a", "p.b"], "side": ["p", "q", "r"]}
+
+
+# fixed defect (name of the old behaviour in the spec) -> family on which TLC must still exhibit it when the old behaviour is switched on
+REGRESSION = {"starpath": "wild-q", "expwild": "twostar", "wildcycle": "wild-q", "bindfirst": "selfcyc", "sideload": "side"}
 
 
 def fam_set(fams) -> str:
@@ -333,15 +349,26 @@ def main(tier: str, replay: str | None = None):
         run.finish()
     fams = TIERS[tier]
     t0 = time.time()
-    common = {"FAMILIES": fam_set(fams), "SCALE": tier, "CAP": 0}
-    with ThreadPoolExecutor(max_workers=3) as pool:
+    common = {"FAMILIES": fam_set(fams), "SCALE": tier, "CAP": 0, "OLD": ""}
+    with ThreadPoolExecutor(max_workers=8) as pool:
         jgen = pool.submit(tlc.run, "Loader", "Loader_c06.cfg", workers=8 if tier == "quick" else 12, timeout=6000, heap="8g",
                            constants=dict(common, DOMAIN="all", GEN="TRUE", TRACE="TRUE"))
         jdef = pool.submit(tlc.run, "Loader", "Loader_c06.cfg", workers=2, timeout=6000, heap="4g", dump_trace=True,
                            constants=dict(common, DOMAIN="defect", GEN="FALSE", TRACE="FALSE"))
         jlive = pool.submit(tlc.run, "Loader", "Loader_c06_live.cfg", workers=3, timeout=6000, heap="6g",
-                            constants={"FAMILIES": fam_set(["fine"]), "SCALE": tier, "CAP": 2})
+                            constants={"FAMILIES": fam_set(["fine"]), "SCALE": tier, "CAP": 2, "OLD": ""})
+        # model-only regression: the OLD behaviour of each fixed defect (Loader.tla / Alias.tla constant Old) on the programs of
+        # its pattern - TLC must still exhibit the defect there (the same programs are in the verified domain of the main run)
+        jold = {name: pool.submit(tlc.run, "Loader", "Loader_c06.cfg", workers=2, timeout=6000, heap="4g",
+                                  constants={"FAMILIES": fam_set([fam]), "SCALE": "quick", "CAP": 0, "OLD": f'"{name}"', "DOMAIN": "old", "GEN": "FALSE", "TRACE": "FALSE"})
+                for name, fam in REGRESSION.items()}
     model = {}
+    for name, job in jold.items():
+        r = tlc.must(job.result(), allow_violations=True)
+        run.add_tlc(r)
+        model["old:" + name] = r.violated
+        if not r.violated:
+            die(f"C06: the regression config Old = {{{name}}} no longer exhibits the fixed defect on the model")
     res = tlc.must(jgen.result(), allow_violations=True)
     run.add_tlc(res)
     model["claimed"] = res.violated
@@ -351,7 +378,7 @@ def main(tier: str, replay: str | None = None):
             "record the pattern or fix the model")
     cases = res.cases
     for c in cases:
-        c["sched"] = "free" if c["family"] == "fine" else "ext" if c["family"] == "side" else "std"
+        c["sched"] = {"fine": "free", "side": "ext", "apicyc": "api"}.get(c["family"], "std")
         c["scale"] = tier
     res = tlc.must(jdef.result(), allow_violations=True)
     run.add_tlc(res)
